@@ -1,6 +1,6 @@
 #!/usr/bin/env python3
 """Run every stored seeded change (seeded/*/patch.diff) against its property's check on a scratch copy of /repo.
-Writes seeded/REGRESSION.json: {id: {rc, keys}}.   usage: tools/seeded_regression.py [--tier quick] [--jobs 5]"""
+Writes seeded/REGRESSION.json: {id: {rc, keys}}.   usage: tools/seeded_regression.py [--tier quick] [--jobs 5] [--only id,id,...  (updates those entries of REGRESSION.json)]"""
 import argparse, glob, json, os, shutil, subprocess, sys, tempfile
 from concurrent.futures import ThreadPoolExecutor
 
@@ -49,8 +49,14 @@ def main():
     for k in sorted(res):
         print("%-8s %-10s %s" % (k, res[k]["status"], ",".join(res[k].get("keys", []))[:140]))
     bad = [k for k, v in res.items() if v["status"] != "caught"]
-    if not a.only:
-        json.dump({"tier": a.tier, "results": res}, open(os.path.join(ROOT, "seeded", "REGRESSION.json"), "w"), indent=1, sort_keys=True)
+    out = os.path.join(ROOT, "seeded", "REGRESSION.json")
+    if a.only and os.path.exists(out):
+        # a partial run updates the entries it covers and keeps the others
+        allres = json.load(open(out)).get("results", {})
+        allres.update(res)
+    else:
+        allres = res
+    json.dump({"tier": a.tier, "results": allres}, open(out, "w"), indent=1, sort_keys=True)
     print("%d seeded changes, %d caught, not caught: %s" % (len(res), len(res) - len(bad), bad))
     return 1 if bad else 0
 
